@@ -98,7 +98,7 @@ func ZZC03_copy_registry_faults() {
 
 func zzCopyReg(failAt int) {
 	pairing := zzInt("pairing", 0, 4)
-	zzSmall = failAt >= 0 || (zzTier() == 0 && pairing >= 1) // quick: full graph variety only for layout -> registry
+	zzSmall = failAt >= 0 || pairing >= 1 // full graph variety only for layout -> registry (thorough adds it to the foreign-layer and blob-entry variants)
 	zzWantForeign = failAt < 0 && zzBool("foreign_layer")
 	if zzWantForeign && zzTier() == 0 {
 		zzSmall = true // quick: the foreign layer variant uses the small graph
